@@ -248,8 +248,8 @@ def chain_program(rng, w, n, geometry='plain'):
     return w, img.to_case(rng), ['chain']
 
 
-def cycle_program(rng, w):
-    """a program that never halts: op 0 -> a prologue of ops that write output bits -> a cycle of >= 2 ops (aligned or
+def cycle_program(rng, w, io_in_cycle=False):
+    """a program that never halts (io_in_cycle: one op of the cycle writes an output bit on every lap): op 0 -> a prologue of ops that write output bits -> a cycle of >= 2 ops (aligned or
     unaligned, in 4-word slots) that keep flipping bits of a scratch area (sometimes in a second, far segment).
     returns (w, case_segs, tags, n_outputs)"""
     ww = w.bit_length() - 1
@@ -276,6 +276,8 @@ def cycle_program(rng, w):
     img.place_op(0, (scratch << ww) + rng.randrange(w), addr[0])
     for k in range(slots):
         if k < n_pro:
+            f = rng.choice([dw, dw + 1])
+        elif io_in_cycle and k == n_pro:
             f = rng.choice([dw, dw + 1])
         else:
             f = ((scratch + rng.randrange(scratch_n)) << ww) + rng.randrange(w)
